@@ -86,7 +86,7 @@ func checkC04(c *Ctx) {
 	for _, f := range sortedKeys(sets) {
 		effs := c.Effects(f)
 		switch {
-		case isRoot(f, roots.InitGen):
+		case c.isGenesisImport(f):
 			r.Ok("C04.pool-writers", "set:"+fname(f), p.Pos(f.Pos()), "role genesis-import")
 		case hasEff(effs, "bank", "BurnCoins", ""):
 			insertFns = append(insertFns, f)
@@ -621,11 +621,8 @@ func (c *Ctx) checkBatchExecuted(reach map[*ssa.Function]bool) {
 	p, r := c.P, c.R
 	// the batch-executed role: mints (payouts) and deletes an OutgoingTxKey entry
 	found := 0
-	for _, f := range c.SemanticFuncs(reach) {
+	for _, f := range c.batchExecutedFns(reach) {
 		effs := c.Effects(f)
-		if !hasEff(effs, "bank", "MintCoins", "") || !hasEff(effs, "store", "Delete", "OutgoingTxKey") {
-			continue
-		}
 		found++
 		// lookup of the executed batch
 		var getSite ssa.Instruction
